@@ -198,23 +198,23 @@ theorem CallOk.mono {s s' : State} (e : ∀ p, HasObj s p → HasObj s' p) {c : 
     | (intro q hq; exact e q (h q hq))
 
 /-- a state change that leaves the coroutine heap alone and only extends the rest -/
-structure Quiet (s s' : State) : Prop where
+structure SQuiet (s s' : State) : Prop where
   ext : Ext s s'
   frames : s'.frames = s.frames
   ready : s'.ready = s.ready
 
-theorem Quiet.refl (s : State) : Quiet s s := ⟨Ext.refl s, rfl, rfl⟩
+theorem SQuiet.refl (s : State) : SQuiet s s := ⟨Ext.refl s, rfl, rfl⟩
 
-theorem Quiet.trans {a b c : State} (h1 : Quiet a b) (h2 : Quiet b c) : Quiet a c :=
+theorem SQuiet.trans {a b c : State} (h1 : SQuiet a b) (h2 : SQuiet b c) : SQuiet a c :=
   ⟨h1.ext.trans h2.ext, h2.frames.trans h1.frames, h2.ready.trans h1.ready⟩
 
-theorem Quiet.pendCount {s s' : State} (h : Quiet s s') (p : Nat) : pendCount s' p = pendCount s p := by
+theorem SQuiet.pendCount {s s' : State} (h : SQuiet s s') (p : Nat) : pendCount s' p = pendCount s p := by
   unfold Circus.Core.pendCount
   rw [h.frames, h.ready]
 
 /-- a quiet change keeps the invariant (the accounting `PidInv` is shown separately, by the generic
     preservation theorems) -/
-theorem SI.of_quiet {s s' : State} (h : SI s) (hp : PidInv s') (q : Quiet s s') : SI s' where
+theorem SI.of_quiet {s s' : State} (h : SI s) (hp : PidInv s') (q : SQuiet s s') : SI s' where
   pid := hp
   fr := fun f hf => by
     rw [q.frames] at hf
